@@ -416,12 +416,40 @@ def _parse_loop_resets(pm: ParserModel, cfg: CFG) -> Tuple[bool, str]:
             r = pm.resolve("parse", c)
             if r == ("self", "_parse_declarations"):
                 decl.append(n)
+    merged = False
+    if len(disp) == 1 and not decl and acq:
+        # `fn = table.get(tok.type, <declarations parser>)`: one call serves both; the fallback runs for the token types
+        # that are not table keys, so "always reset after the fallback" holds iff no kept type is missing from the table
+        fn_parse = pm.fn("parse")
+        default_decl = False
+        for x in walk_local(fn_parse):
+            if isinstance(x, ast.Call) and isinstance(x.func, ast.Attribute) and x.func.attr == "get" and len(x.args) == 2:
+                d = x.args[1]
+                target = None
+                if isinstance(d, ast.Attribute) and isinstance(d.value, ast.Name) and d.value.id == "self":
+                    target = d.attr
+                elif isinstance(d, ast.Name):
+                    for y in walk_local(fn_parse):
+                        if isinstance(y, ast.Assign) and any(isinstance(t, ast.Name) and t.id == d.id for t in y.targets) and isinstance(y.value, ast.Attribute) and isinstance(y.value.value, ast.Name) and y.value.value.id == "self":
+                            target = y.value.attr
+                if target == "_parse_declarations":
+                    default_decl = True
+        keep = None
+        for x in walk_local(fn_parse):
+            if isinstance(x, (ast.Assign, ast.AnnAssign)) and any(isinstance(t, ast.Name) and t.id == "_keep_doxygen" for t in (x.targets if isinstance(x, ast.Assign) else [x.target])) and isinstance(x.value, (ast.Set, ast.Tuple, ast.List)):
+                keep = {e.value for e in x.value.elts if isinstance(e, ast.Constant)}
+        if not default_decl or keep is None:
+            return False, "dispatch / declaration call anchors in the parse loop vanished"
+        if not keep <= set(pm.dispatch):
+            return False, f"token types {sorted(keep - set(pm.dispatch))} keep the pending doc text but have no handler: the declaration parsed for them would leave its doc text pending"
+        merged = True
+        decl = disp
     if len(disp) != 1 or len(decl) != 1 or not acq:
         return False, "dispatch / declaration call anchors in the parse loop vanished"
     loop_heads = [n for n in cfg.nodes if n.kind == "test" and n.loop is not None]
     keep_tests = [n for n in cfg.nodes if n.kind == "test" and n.cond is not None and "_keep_doxygen" in norm(n.cond)]
     # from the declaration call: every path to the next acquisition test passes a reset
-    for start, allow_keep in ((decl[0], False), (disp[0], True)):
+    for start, allow_keep in (((disp[0], True),) if merged else ((decl[0], False), (disp[0], True))):
         seen = set()
         st = [(s, False) for s, lab in start.succ if lab != "exc"]
         while st:
